@@ -112,9 +112,13 @@ pub fn record_c06(out: &str, seed: u64, n_ops: usize, mode: &str) {
     let mut nontrivial = 0u64;
     let mut samples = vec![];
     let mut ops_done = 0usize;
+    // reload bursts (engine mode): after a load, half of the time, [queries, load, queries] follow with no tag
+    // operation in between - successive loads put different rules at the addresses of the generation before
+    let mut burst = 0u32;
     while ops_done < n_ops {
         ops_done += 1;
-        let r = rng.below(100);
+        let forced = burst > 0;
+        let r = if forced { burst -= 1; if burst % 2 == 0 { 99 } else { 30 } } else { rng.below(100) };
         let pick_tags = |rng: &mut Rng| -> Vec<String> { all_tags.iter().filter(|_| rng.chance(1, 2)).map(|s| s.to_string()).collect() };
         let mut log = |w: &mut LineWriter, recent: &mut Vec<String>, v: Value, brief: String| {
             recent.push(brief);
@@ -171,11 +175,14 @@ pub fn record_c06(out: &str, seed: u64, n_ops: usize, mode: &str) {
                     }
                 }
                 Obj::E(e, blob) => {
-                    if rng.chance(1, 3) {
+                    if !forced && rng.chance(1, 2) {
+                        burst = 3;
+                    }
+                    if rng.chance(1, 3) || (forced && blob.is_none()) {
                         let (ids, img) = &others[rng.below(others.len())];
                         let ok = e.deserialize(img).is_ok();
                         log(&mut w, &mut recent, json!({"op": if ok { "load" } else { "load-failed" }, "ids": ids.iter().map(|i| i + 1).collect::<Vec<_>>()}), "load(other image)".into());
-                    } else if blob.is_none() || rng.chance(1, 3) {
+                    } else if !forced && (blob.is_none() || rng.chance(1, 3)) {
                         *blob = e.serialize_raw().ok();
                         log(&mut w, &mut recent, json!({"op": "serialize"}), "serialize".into());
                     } else {
